@@ -212,6 +212,8 @@ func checkC09(c *Ctx) (string, error) {
 	_ = types.Typ
 	checkC09b(c, ab, sp)
 	checkCToGoCopies(c, rp)
+	checkNoStoreThroughCast(c, ab)
+	checkCFuncCallbackWrapping(c, ab)
 	return "C09 (structural clauses only): the parameter-slot contract of the C-ABI rewriter (signature, body prologue, call site and callback wrapper agree per classification kind; one forwarded value per parameter; sret slot; result kinds handled); a classifier for every architecture name a build can select; the in-memory size limit of each ABI; plus: the size of every buffer handed to runtime.CStrCopy (len+1 of the same string), CStrCopy's copy length and its NUL store on every path; a single spelling of the C-variadic marker tested on the last parameter at every decision site; the System V rule that an eightbyte becomes a float vector only if all of its fields are floats. NOT decided / not applicable: register classes of aggregates that fit registers (beyond the all-float rule), the values moved by the rewriting code, agreement with the host C compiler's ABI - the oracle is a program outside the source.", nil
 }
 
